@@ -2448,6 +2448,10 @@ func (a *Association) handleData(chunkPayload *chunkPayloadData) []*packet {
 
 			return nil
 		}
+	} else {
+		// Not accepted: the TSN is a duplicate (or lies beyond the tracking
+		// window). Let the queue record a duplicate so the next SACK reports it.
+		a.payloadQueue.push(chunkPayload.tsn)
 	}
 
 	// Upon the reception of a new DATA chunk, an endpoint shall examine the
@@ -2459,7 +2463,9 @@ func (a *Association) handleData(chunkPayload *chunkPayloadData) []*packet {
 	expectedTSN := a.peerLastTSN() + 1
 	gapDetected := sna32GT(chunkPayload.tsn, expectedTSN)
 
-	sackNow := chunkPayload.immediateSack || gapDetected
+	// RFC 9260 sec 6.2: a packet carrying only duplicate DATA MUST be
+	// acknowledged without delay.
+	sackNow := chunkPayload.immediateSack || gapDetected || !canPush
 	if state == shutdownSent {
 		sackNow = true
 	}
